@@ -89,6 +89,8 @@ func runC07(c *Ctx) {
 	c07TargetForms(c)
 	c.Rule("C07.O17", "E5,E4", "the answer to a HEAD request ends at its head: the client records the request's method when it queues the request, the record reaches the parser's no-body decision, and the records are consumed in request order", 3)
 	c07HeadResponses(c)
+	c.Rule("C07.O18", "E4", "a request method is any token and is reported as sent: the two method states decide by isToken alone, and OnMethod receives the bytes of the request line unconverted", 3)
+	c07MethodIsAToken(c)
 	c.Rule("C07.O4", "E8", "request.Close: major<1 -> true; 1.0 -> hasClose || !keepAlive; else hasClose, with hasClose / keepAlive set by the Connection values \"close\" / \"keep-alive\"", 1)
 
 	// ------------------------------------------------------------------ O1
